@@ -567,6 +567,8 @@ def rules(ctx):
 
 F = "src/leaspy/algo/simulate/simulate.py"
 VARIANTS = [
+    V("precision-table-entry-wrong", "src/leaspy/algo/simulate/simulate.py", "            1: 0.1,  #", "            1: 0.5,  #", "C18.R2b"),
+    V("duplicates-kept-after-rounding", "src/leaspy/algo/simulate/simulate.py", "        df_sim = df_sim[~df_sim.index.duplicated()]\n", "", "C18.R2b"),
     V("baseline-visit-only-if-follow-up", "src/leaspy/algo/simulate/simulate.py", "            age_visits = [time]\n", "            age_visits = []\n", "C18.R6"),
     V("visit-type-unchecked", F, """        if not isinstance(visit_parameters, dict) or "visit_type" not in visit_parameters:
             raise LeaspyAlgoInputError(
